@@ -201,6 +201,10 @@ LITERALS = [
     ('=IF(A1<0,"yes","YES")', 'YES'), ('=SUBSTITUTE("banana","a","A")', 'bAnAnA'), ('="abc"', 'abc'),
     ('=LEFT("qQ",1)&RIGHT("Qq",1)', 'qq'), ('=true&TRUE&True', 'TRUETRUETRUE'), ('=IF(TRUE,"n/a","N/A")&"#n/a"', 'n/a#n/a'),
     ('=LOWER("Ab")&UPPER("aB")&"ab"&"AB"', 'abABabAB'), ('=("é"&"É")', 'éÉ'),
+    # text literals that consist of syntax characters are operands like any other
+    ('=LEN(",")', 1), ('=SUBSTITUTE("a.b",".",",")', 'a,b'), ('="x"&","', 'x,'), ('=(",")', ','), ('=COUNTA({1,",";2,","})', 4),
+    ('=LEN("(")+LEN(")")', 2), ('=CONCATENATE(";","{","}")', ';{}'), ('=LEN(" ")', 1), ('=IF(TRUE,",",";")', ','), ('="+"&"-"&"%"', '+-%'),
+    ('=SUM(LEN(","),LEN(""))', 1.0), ('=LEN(":")&LEN("!")', '11'),
 ]
 
 
@@ -211,7 +215,8 @@ def _check_literal_case(case):
         got = _value(b)
     except Exception as ex:
         return '%s raised %s: %s' % (text, type(ex).__name__, str(ex)[:80])
-    if not _same_value(got, want) or type(got) is not type(want):
+    numeric = isinstance(want, (int, float)) and not isinstance(want, bool)
+    if not _same_value(got, want) or (isinstance(got, bool) != isinstance(want, bool)) or (not numeric and type(got) is not type(want)):
         return '%s = %r, expected %r' % (text, got, want)
     if text == '="abc"' and b[-1].get_expr != '"abc"':
         return '%s is exported as %s' % (text, b[-1].get_expr)
